@@ -157,7 +157,7 @@ def diff_cells(ev, gv, limit=8):
     return bad
 
 
-def compare_series(name, exp_s, got_s, ctx=None, check_dtype=True):
+def compare_series(name, exp_s, got_s, ctx=None, check_dtype=True, cat_strict=True):
     """Return list of failure dicts for one column."""
     fails = []
     ev, etag = canon_series(exp_s)
@@ -169,7 +169,7 @@ def compare_series(name, exp_s, got_s, ctx=None, check_dtype=True):
         mult = {"ns": 1, "us": 1000, "ms": 10 ** 6, "s": 10 ** 9}
         ev = [None if v is None else ("t", v[1] * mult[etag[1]]) for v in ev]
         gv = [None if v is None else ("t", v[1] * mult[gtag[1]]) for v in gv]
-    if etag[0] == "category" or gtag[0] == "category":
+    if cat_strict and (etag[0] == "category" or gtag[0] == "category"):
         if etag[0] == "category" and gtag[0] == "category":
             if etag[1] != gtag[1]:
                 fails.append({"kind": "cat_labels", "column": str(name), "expected": list(etag[1])[:12],
@@ -196,7 +196,7 @@ def compare_series(name, exp_s, got_s, ctx=None, check_dtype=True):
     return fails
 
 
-def same_table(exp, got, ctx=None, check_index=True, check_dtype=True):
+def same_table(exp, got, ctx=None, check_index=True, check_dtype=True, cat_strict=True):
     """Compare DataFrames.  exp is the canonicalised input (index already decided by caller)."""
     fails = []
     en = [str(c) for c in exp.columns]
@@ -206,7 +206,7 @@ def same_table(exp, got, ctx=None, check_index=True, check_dtype=True):
     if len(exp) != len(got):
         return [{"kind": "row_count", "column": None, "expected": len(exp), "got": len(got)}]
     for i, c in enumerate(exp.columns):
-        fails += compare_series(c, exp.iloc[:, i], got.iloc[:, i], ctx, check_dtype)
+        fails += compare_series(c, exp.iloc[:, i], got.iloc[:, i], ctx, check_dtype, cat_strict)
     if check_index:
         fails += compare_index(exp.index, got.index, ctx)
     return fails
